@@ -81,6 +81,12 @@ def run(ctx):
             results.append({"plan": plan, "ok": not bad, "tracker_exit_delay_s": got and got.get("tracker_exit_delay_s")})
             if bad:
                 fails.append((plan, bad, got, res["stderr"][-800:]))
+    rounds = 25 if ctx.tier == "quick" else 120
+    sres = runner.run_script(tree_scen.STORM, vlib.REPO, timeout=200, args=(rounds,))
+    storm = runner.last_json(sres)
+    if storm is None or storm["died_of_signals"] or storm["distinct_trackers"] < rounds:
+        fails.append((("storm", rounds), ["a tracker died of SIGINT/SIGTERM sent while it was starting" if storm and storm["died_of_signals"]
+                                          else "signal storm scenario did not complete"], storm, sres["stderr"][-800:]))
     if fails:
         plan, bad, got, err = fails[0]
         rp = vlib.write_replay(ctx, "real", {"kind": "tracker behaviour in a real process tree deviates", "plan": plan, "why": bad,
@@ -102,13 +108,18 @@ def run(ctx):
                 "SIGKILL of every member in leaf-first or root-first order / SIGINT+SIGTERM sent to the tracker / tracker killed "
                 "twice followed by tracked operations; observed: tracker identity and liveness, existence of the registered "
                 "resources before and after each death, the relaunch warning",
-        "traces_validated_against_impl": len(plans), "samples": results[:3],
+        "signal_storm": storm,
+        "traces_validated_against_impl": len(plans) + 1, "samples": results[:3],
     }
     return vlib.finish(ctx, ASSUME)
 
 
 def replay(ctx, path):
     r = json.load(open(path))
+    if r["plan"][0] == "storm":
+        storm = runner.last_json(runner.run_script(tree_scen.STORM, vlib.REPO, timeout=200, args=(r["plan"][1],)))
+        print(storm)
+        return 1 if (storm is None or storm["died_of_signals"]) else 0
     got, res = run_tree(*r["plan"])
     bad = judge(r["plan"][0], r["plan"][2], got)
     print(bad or "ok")
